@@ -1,6 +1,10 @@
 package props
 
 import (
+	storagestatus "github.com/oneconcern/datamon/pkg/storage/status"
+	"errors"
+	"strconv"
+	"runtime"
 	"bytes"
 	"context"
 	"fmt"
@@ -220,7 +224,7 @@ func TestC16(t *testing.T) {
 	if !lib.Thorough() {
 		nk = 5
 	}
-	rep.Rule = fmt.Sprintf("(a) all 3^%d states over keys %v (absent/d1/d2) on afero OsFs and MemMapFs: full observer battery in every state (Get/Has/GetAttr of every key, Keys, KeysPrefix x 7 prefixes x 2 delimiters x every page size, paginated) and every transition (Put excl/overwrite of each key and datum, Delete of each key, an abandoned first listing page followed by a mutation and a fresh listing) compared with a map model; (b) 2..3 concurrent exclusive Puts of different bytes to one key, afero calls gated, all interleavings; distinct = distinct (backend,state)", nk, c16keys[:nk])
+	rep.Rule = fmt.Sprintf("(a) all 3^%d states over keys %v (absent/d1/d2) on afero OsFs and MemMapFs: full observer battery in every state (Get/Has/GetAttr of every key, Keys, KeysPrefix x 7 prefixes x 2 delimiters x every page size, paginated) and every transition (Put excl/overwrite of each key and datum, Delete of each key, an abandoned first listing page followed by a mutation and a fresh listing) compared with a map model; (b) 2..3 concurrent exclusive Puts of different bytes to one key, afero calls gated, all interleavings; (c) one Put (overwrite with a shorter / longer value, or exclusive create; with and without the store's lock option) concurrent with one Get+read of the same key through the same store object, afero open/read/write/close calls gated, all interleavings: the read returns the previous or the new object, never anything else; plus, sequentially and with/without the store's lock option: Get, overwrite, then consume the reader; distinct = distinct (backend,state)", nk, c16keys[:nk])
 	total := 1
 	for i := 0; i < nk; i++ {
 		total *= 3
@@ -356,6 +360,7 @@ func TestC16(t *testing.T) {
 	rep.Sample(map[string]interface{}{"state": c16stateDesc(jobs[len(jobs)/3].state), "backend": jobs[len(jobs)/3].be.name})
 
 	c16concurrent(t, rep)
+	c16readerWriter(t, rep)
 }
 
 // ---- (b) concurrent exclusive Puts -----------------------------------------------------------
@@ -411,6 +416,267 @@ func (f *gatedFile) Close() error {
 	return f.File.Close()
 }
 
+// ---- (c) a reader concurrent with one writer: reads are atomic (an object store never shows a torn object) -------
+
+// c16sharedFs gates the afero calls of ONE store object used by several clients (the lock option lives in the store
+// object); the calling client is found through its goroutine (localfs calls afero in the caller's goroutine when the
+// source is an io.WriterTo). Reads of files opened for reading are gated too: a reader may open before and read after a
+// write.
+type c16sharedFs struct {
+	afero.Fs
+	x  *lib.Exec
+	mu sync.Mutex
+	by map[uint64]int
+}
+
+func goid() uint64 {
+	var buf [64]byte
+	n := runtime.Stack(buf[:], false)
+	f := strings.Fields(string(buf[:n])) // "goroutine 123 [running]:"
+	id, _ := strconv.ParseUint(f[1], 10, 64)
+	return id
+}
+
+func (g *c16sharedFs) register(client int) {
+	g.mu.Lock()
+	if g.by == nil {
+		g.by = map[uint64]int{}
+	}
+	g.by[goid()] = client
+	g.mu.Unlock()
+}
+
+func (g *c16sharedFs) client() int {
+	g.mu.Lock()
+	defer g.mu.Unlock()
+	c, ok := g.by[goid()]
+	if !ok {
+		panic("afero call from an unregistered goroutine")
+	}
+	return c
+}
+
+type c16sharedFile struct {
+	afero.File
+	g    *c16sharedFs
+	name string
+}
+
+func (g *c16sharedFs) OpenFile(name string, flag int, perm os.FileMode) (afero.File, error) {
+	if d := g.x.Gate(g.client(), "fs", "OpenFile", name, flag&os.O_CREATE != 0); d != lib.Proceed {
+		return nil, lib.ErrDead
+	}
+	f, err := g.Fs.OpenFile(name, flag, perm)
+	if err != nil {
+		return nil, err
+	}
+	return &c16sharedFile{File: f, g: g, name: name}, nil
+}
+
+func (g *c16sharedFs) Open(name string) (afero.File, error) {
+	if d := g.x.Gate(g.client(), "fs", "Open", name, false); d != lib.Proceed {
+		return nil, lib.ErrDead
+	}
+	f, err := g.Fs.Open(name)
+	if err != nil {
+		return nil, err
+	}
+	return &c16sharedFile{File: f, g: g, name: name}, nil
+}
+
+func (g *c16sharedFs) MkdirAll(p string, perm os.FileMode) error {
+	if d := g.x.Gate(g.client(), "fs", "MkdirAll", p, true); d != lib.Proceed {
+		return lib.ErrDead
+	}
+	return g.Fs.MkdirAll(p, perm)
+}
+
+func (f *c16sharedFile) Write(p []byte) (int, error) {
+	if d := f.g.x.Gate(f.g.client(), "file", "Write", f.name, true); d != lib.Proceed {
+		return 0, lib.ErrDead
+	}
+	return f.File.Write(p)
+}
+
+func (f *c16sharedFile) Read(p []byte) (int, error) {
+	if d := f.g.x.Gate(f.g.client(), "file", "Read", f.name, false); d != lib.Proceed {
+		return 0, lib.ErrDead
+	}
+	return f.File.Read(p)
+}
+
+func (f *c16sharedFile) Close() error {
+	if d := f.g.x.Gate(f.g.client(), "file", "Close", f.name, true); d != lib.Proceed {
+		return lib.ErrDead
+	}
+	return f.File.Close()
+}
+
+func c16readerWriter(t *testing.T, rep *lib.Report) {
+	const oldV, shortV, longV = "old-value-0123456789", "NEW", "a-new-value-that-is-longer-than-the-old-one"
+	for _, cfg := range []struct {
+		mode string // overwrite-shorter | overwrite-longer | create-exclusive
+		lock bool
+		osfs bool
+	}{{"overwrite-shorter", false, false}, {"overwrite-longer", false, false}, {"create-exclusive", false, false}, {"overwrite-shorter", false, true}, {"create-exclusive", false, true}} {
+		// (the lock option is explored sequentially below: a goroutine waiting for the store's RWMutex is not at a
+		// scheduling point of this explorer)
+		cfg := cfg
+		sc := &lib.Scenario{Name: fmt.Sprintf("reader||writer-%s-lock=%v-osfs=%v", cfg.mode, cfg.lock, cfg.osfs), FreePreempt: true}
+		newV := shortV
+		if cfg.mode == "overwrite-longer" {
+			newV = longV
+		}
+		sc.Setup = func(x *lib.Exec) {
+			var fs afero.Fs
+			if cfg.osfs {
+				dir, clean := c16scratch()
+				x.Data["clean"] = clean
+				fs = afero.NewBasePathFs(afero.NewOsFs(), filepath.Clean(dir))
+			} else {
+				fs = afero.NewMemMapFs()
+			}
+			x.Data["fs"] = fs
+			if cfg.mode != "create-exclusive" {
+				_ = fs.MkdirAll("dir", 0o700)
+				_ = afero.WriteFile(fs, "dir/key", []byte(oldV), 0o600)
+			}
+			shared := &c16sharedFs{Fs: fs, x: x}
+			x.Data["shared"] = shared
+			x.Data["store"] = localfs.New(shared, localfs.WithRetry(false), localfs.WithLogger(nopLogger), localfs.WithLock(cfg.lock))
+		}
+		store := func(x *lib.Exec, id int) storage.Store {
+			x.Data["shared"].(*c16sharedFs).register(id)
+			return x.Data["store"].(storage.Store)
+		}
+		sc.Phases = [][]lib.ClientFn{{
+			func(x *lib.Exec, id int) error {
+				st := store(x, id)
+				return st.Put(context.Background(), "dir/key", bytes.NewReader([]byte(newV)), cfg.mode == "create-exclusive")
+			},
+			func(x *lib.Exec, id int) error {
+				st := store(x, id)
+				r, err := st.Get(context.Background(), "dir/key")
+				if err != nil {
+					x.Data["read"] = "error:" + errTag(err)
+					if errors.Is(err, storagestatus.ErrNotExists) {
+						x.Data["read"] = "not-exists"
+					}
+					return nil
+				}
+				b, rerr := io.ReadAll(r)
+				_ = r.Close()
+				if rerr != nil {
+					x.Data["read"] = "read-error:" + rerr.Error()
+					return nil
+				}
+				x.Data["read"] = "bytes:" + string(b)
+				return nil
+			},
+		}}
+		sc.Final = func(x *lib.Exec) {
+			if clean, ok := x.Data["clean"].(func()); ok {
+				defer clean()
+			}
+			if x.Hung {
+				x.Violate("C16|reader-writer|hang", "never returned")
+				return
+			}
+			if x.ClientErr[0] != nil {
+				x.Violate("C16|reader-writer|put-failed|"+cfg.mode, x.ClientErr[0].Error())
+			}
+			got, _ := x.Data["read"].(string)
+			okv := map[string]bool{"bytes:" + newV: true}
+			if cfg.mode == "create-exclusive" {
+				okv["not-exists"] = true
+			} else {
+				okv["bytes:"+oldV] = true
+			}
+			x.SetOutcome(got)
+			if !okv[got] {
+				x.Violate(fmt.Sprintf("C16|torn-read|%s|lock=%v", cfg.mode, cfg.lock), fmt.Sprintf("a Get concurrent with Put(%q) over %q returned %s: neither the previous nor the new object", newV, map[bool]string{true: "(absent)", false: oldV}[cfg.mode == "create-exclusive"], got))
+			}
+		}
+		e := &lib.Explorer{Sc: sc, PreemptBound: -1, MaxExecs: 200000, Budget: 5 * time.Minute}
+		e.Explore(t, rep)
+		rep.Set("executions:"+sc.Name, e.Execs)
+	}
+	// the store's lock option: Get takes the read lock only while it opens the file, so a reader obtained before an
+	// overwrite reads while the overwrite is in progress. Phase 1: Get; phase 2: Put || consuming the reader (no client
+	// ever waits for the RWMutex, which is not a scheduling point of this explorer).
+	{
+		sc := &lib.Scenario{Name: "reader-opened-first||writer-overwrite-shorter-lock=true", FreePreempt: true}
+		sc.Setup = func(x *lib.Exec) {
+			fs := afero.NewMemMapFs()
+			_ = fs.MkdirAll("dir", 0o700)
+			_ = afero.WriteFile(fs, "dir/key", []byte(oldV), 0o600)
+			shared := &c16sharedFs{Fs: fs, x: x}
+			x.Data["shared"] = shared
+			x.Data["store"] = localfs.New(shared, localfs.WithRetry(false), localfs.WithLogger(nopLogger), localfs.WithLock(true))
+		}
+		sc.Phases = [][]lib.ClientFn{
+			{func(x *lib.Exec, id int) error {
+				x.Data["shared"].(*c16sharedFs).register(id)
+				r, err := x.Data["store"].(storage.Store).Get(context.Background(), "dir/key")
+				x.Data["reader"] = r
+				return err
+			}},
+			{func(x *lib.Exec, id int) error {
+				x.Data["shared"].(*c16sharedFs).register(id)
+				return x.Data["store"].(storage.Store).Put(context.Background(), "dir/key", bytes.NewReader([]byte(shortV)), storage.OverWrite)
+			}, func(x *lib.Exec, id int) error {
+				x.Data["shared"].(*c16sharedFs).register(id)
+				r := x.Data["reader"].(io.ReadCloser)
+				b, err := io.ReadAll(r)
+				_ = r.Close()
+				x.Data["read"] = fmt.Sprintf("bytes:%s err=%v", b, err)
+				return nil
+			}},
+		}
+		sc.Final = func(x *lib.Exec) {
+			if x.Hung {
+				x.Violate("C16|reader-writer|hang", "never returned")
+				return
+			}
+			got, _ := x.Data["read"].(string)
+			x.SetOutcome(got)
+			if x.ClientErr[0] != nil || x.ClientErr[1] != nil || (got != "bytes:"+oldV+" err=<nil>" && got != "bytes:"+shortV+" err=<nil>") {
+				x.Violate("C16|torn-read|overwrite-shorter|lock=true", fmt.Sprintf("store with the lock option: a reader obtained before Put(%q) over %q and consumed while the Put runs returned %s (errors %v %v): neither the previous nor the new object", shortV, oldV, got, x.ClientErr[0], x.ClientErr[1]))
+			}
+		}
+		e := &lib.Explorer{Sc: sc, PreemptBound: -1, MaxExecs: 200000, Budget: 5 * time.Minute}
+		e.Explore(t, rep)
+		rep.Set("executions:"+sc.Name, e.Execs)
+	}
+	// sequential: a reader obtained BEFORE an overwrite and consumed AFTER it (no concurrency needed; with the lock
+	// option the read lock is released when Get returns)
+	for _, be := range c16backends {
+		for _, lock := range []bool{false, true} {
+			for _, newV := range []string{shortV, longV} {
+				fs, clean := be.mk()
+				_ = fs.MkdirAll("dir", 0o700)
+				_ = afero.WriteFile(fs, "dir/key", []byte(oldV), 0o600)
+				st := localfs.New(fs, localfs.WithRetry(false), localfs.WithLogger(nopLogger), localfs.WithLock(lock))
+				r, err := st.Get(context.Background(), "dir/key")
+				if err == nil {
+					err = st.Put(context.Background(), "dir/key", bytes.NewReader([]byte(newV)), storage.OverWrite)
+				}
+				var got []byte
+				if err == nil {
+					got, err = io.ReadAll(r)
+					_ = r.Close()
+				}
+				rep.Eval(1)
+				rep.AddStates(1, 3, 1)
+				if err != nil || (string(got) != oldV && string(got) != newV) {
+					rep.Violate(fmt.Sprintf("C16|torn-read|reader-opened-before-overwrite|lock=%v", lock), fmt.Sprintf("backend %s: Get, then Put(%q) over %q, then reading the Get's reader returned %q, %v: neither the previous nor the new object", be.name, newV, oldV, got, err), map[string]interface{}{"backend": be.name, "lock": lock, "new": newV})
+				}
+				clean()
+			}
+		}
+	}
+}
+
 type plainReader struct{ r io.Reader }
 
 func (p plainReader) Read(b []byte) (int, error) { return p.r.Read(b) }
@@ -421,7 +687,9 @@ func c16concurrent(t *testing.T, rep *lib.Report) {
 		writerTo bool
 		retry    bool
 		osfs     bool
-	}{{2, true, false, false}, {3, true, false, false}, {2, false, false, false}, {3, false, false, true}, {2, true, true, false}} {
+	}{{2, true, false, false}, {3, true, false, false}, {2, false, false, false}, {3, false, false, true}} {
+		// (no retry=true configuration: the retry loop of Put sleeps for jittered, randomly drawn intervals, so the number
+		// of attempts within its 30 s budget is not a function of the schedule)
 		if cfg.writers == 3 && !cfg.writerTo && !lib.Thorough() {
 			continue
 		}
